@@ -10,10 +10,11 @@ Two layers, both over ALL states / inputs / histories of the models:
   every freshly built response is copied from (`iin_of_fresh_response`), the life of the restart
   bit (`restart_*`: set at construction, cleared only by a WRITE of g80v1 index 7 = 0, never set
   again), the broadcast bit (`broadcast_*`), the application-controlled bits (`app_bits_mirror`);
-* database component (`Dnp3.Props.DbComponent`): the class bits equal "an unwritten event of that
-  class is buffered" and `unwritten_classes` never underflows (`class_bits_exact`,
-  `no_counter_underflow`, for every operation sequence and per operation; D3 repaired), the overflow
-  bit interval (`overflow_flag_*`).
+* database component (`Dnp3.Props.DbComponent`, all eight point types, every per-type capacity
+  configuration): the class bits equal "an unwritten event of that class is buffered" and
+  `unwritten_classes` never underflows (`class_bits_exact`, `no_counter_underflow`, for every operation
+  sequence and per operation; D3 repaired), the overflow bit interval (`overflow_flag_*`; "some type at
+  capacity" asks every type exactly once: `is_any_full_each_type_once`, `any_full_iff`, `type_capacity`).
 
 The statements are restated verbatim from the proof files; definitions used in them
 (`StepWriteClears`, `StepFrag`, `BcastOf`, `IsSolConfirm`, `BcEvid`, `Quiet`, `Quiet1`, `ReportedOk`,
@@ -333,45 +334,56 @@ theorem unsol_confirm_keeps_mandatory_example :
 section Db
 open Dnp3.DbM Dnp3.DbProofs
 
+/-- `EventBuffer::is_any_full` asks every type exactly once; `EventBufferConfig::max_events` (the capacity
+    of the shared event list) adds every type's maximum exactly once -/
+theorem is_any_full_each_type_once (t : PtType) :
+    Gen.DbT.isAnyFull.count t = 1 ∧ Gen.DbT.maxEventsSum.count t = 1 :=
+  @Dnp3.Props.Db.is_any_full_each_type_once t
+
+/-- every `impl Insertable for measurement::X` reads its own maximum and its own counter, changes its own
+    counter, and names its own `Event` variant -/
+theorem insertable_slots_own (t : PtType) : Gen.DbT.insertable t = ⟨t, t, t, t, t, t, t⟩ :=
+  @Dnp3.Props.Db.insertable_slots_own t
+
 /-- `counters_exact`: `total` AND `written` counters equal the per-class / per-type counts of
     records / of `Written` records: an invariant of every operation sequence from a fresh database,
     the overflow of a `Written` record out of the buffer included (false before the repair of D3:
     `insert` left `written` too high) -/
-theorem counters_exact (evMax : Nat) (sel : Option Nat) (ops : List DbOp) :
-    CountersExact (run (Db.new evMax sel) ops) :=
-  @Dnp3.Props.Db.counters_exact evMax sel ops
+theorem counters_exact (ev : TyVec Nat) (cz : TyVec Bool) (sel : Option Nat) (ops : List DbOpX) :
+    CountersExact (runX (Db.newCfg ev cz sel) ops) :=
+  @Dnp3.Props.Db.counters_exact ev cz sel ops
 
 /-- … and it is preserved by every single operation from any state that has it -/
-theorem counters_exact_preserved (db : Db) (op : DbOp) (h : CountersExact db) : CountersExact (step db op) :=
+theorem counters_exact_preserved (db : Db) (op : DbOpX) (h : CountersExact db) : CountersExact (stepX db op) :=
   @Dnp3.Props.Db.counters_exact_preserved db op h
 
 /-- `class_bits_exact`: after every operation sequence from a fresh database `unwritten_classes`
     does not panic and bit c is set iff the buffer holds a class-c record that is not `Written` -/
-theorem class_bits_exact (evMax : Nat) (sel : Option Nat) (ops : List DbOp) :
-    ∃ b1 b2 b3, (run (Db.new evMax sel) ops).unwrittenClasses = some (b1, b2, b3) ∧
-      (b1 = true ↔ ∃ r ∈ (run (Db.new evMax sel) ops).events, r.cls = 1 ∧ r.st ≠ .written) ∧
-      (b2 = true ↔ ∃ r ∈ (run (Db.new evMax sel) ops).events, r.cls = 2 ∧ r.st ≠ .written) ∧
-      (b3 = true ↔ ∃ r ∈ (run (Db.new evMax sel) ops).events, r.cls = 3 ∧ r.st ≠ .written) :=
-  @Dnp3.Props.Db.class_bits_exact evMax sel ops
+theorem class_bits_exact (ev : TyVec Nat) (cz : TyVec Bool) (sel : Option Nat) (ops : List DbOpX) :
+    ∃ b1 b2 b3, (runX (Db.newCfg ev cz sel) ops).unwrittenClasses = some (b1, b2, b3) ∧
+      (b1 = true ↔ ∃ r ∈ (runX (Db.newCfg ev cz sel) ops).events, r.cls = 1 ∧ r.st ≠ .written) ∧
+      (b2 = true ↔ ∃ r ∈ (runX (Db.newCfg ev cz sel) ops).events, r.cls = 2 ∧ r.st ≠ .written) ∧
+      (b3 = true ↔ ∃ r ∈ (runX (Db.newCfg ev cz sel) ops).events, r.cls = 3 ∧ r.st ≠ .written) :=
+  @Dnp3.Props.Db.class_bits_exact ev cz sel ops
 
 /-- … and after every single operation from any state with exact counters -/
-theorem class_bits_exact_step (db : Db) (op : DbOp) (h : CountersExact db) :
-    ∃ b1 b2 b3, (step db op).unwrittenClasses = some (b1, b2, b3) ∧
-      (b1 = true ↔ ∃ r ∈ (step db op).events, r.cls = 1 ∧ r.st ≠ .written) ∧
-      (b2 = true ↔ ∃ r ∈ (step db op).events, r.cls = 2 ∧ r.st ≠ .written) ∧
-      (b3 = true ↔ ∃ r ∈ (step db op).events, r.cls = 3 ∧ r.st ≠ .written) :=
+theorem class_bits_exact_step (db : Db) (op : DbOpX) (h : CountersExact db) :
+    ∃ b1 b2 b3, (stepX db op).unwrittenClasses = some (b1, b2, b3) ∧
+      (b1 = true ↔ ∃ r ∈ (stepX db op).events, r.cls = 1 ∧ r.st ≠ .written) ∧
+      (b2 = true ↔ ∃ r ∈ (stepX db op).events, r.cls = 2 ∧ r.st ≠ .written) ∧
+      (b3 = true ↔ ∃ r ∈ (stepX db op).events, r.cls = 3 ∧ r.st ≠ .written) :=
   @Dnp3.Props.Db.class_bits_exact_step db op h
 
 /-- `no_counter_underflow`: the checked subtraction `total - written` of `unwritten_classes`
     (`Count::subtract`) never underflows on a database reached from a fresh one by any operation
     sequence (`none` = the panic of the dev build) -/
-theorem no_counter_underflow (evMax : Nat) (sel : Option Nat) (ops : List DbOp) :
-    (run (Db.new evMax sel) ops).unwrittenClasses ≠ none :=
-  @Dnp3.Props.Db.no_counter_underflow evMax sel ops
+theorem no_counter_underflow (ev : TyVec Nat) (cz : TyVec Bool) (sel : Option Nat) (ops : List DbOpX) :
+    (runX (Db.newCfg ev cz sel) ops).unwrittenClasses ≠ none :=
+  @Dnp3.Props.Db.no_counter_underflow ev cz sel ops
 
 /-- … nor after any single operation from any state with exact counters -/
-theorem no_counter_underflow_step (db : Db) (op : DbOp) (h : CountersExact db) :
-    (step db op).unwrittenClasses ≠ none :=
+theorem no_counter_underflow_step (db : Db) (op : DbOpX) (h : CountersExact db) :
+    (stepX db op).unwrittenClasses ≠ none :=
   @Dnp3.Props.Db.no_counter_underflow_step db op h
 
 /-- the overflow flag: raised by every discard, never lowered by an insert, and after a clear it
@@ -389,10 +401,10 @@ theorem overflow_flag_frame (db : Db) (op : DbOp)
   @Dnp3.Props.Db.overflow_flag_frame db op h
 
 /-- with exact totals (always, `total_exact_invariant`) "some type at capacity" is a statement
-    about the records in the buffer -/
+    about the records in the buffer: some type with a non-zero maximum holds at least that many records -/
 theorem any_full_iff (db : Db) (h : TotalExact db) :
-    db.isAnyFull = true ↔ db.evMax ≠ 0 ∧
-      (db.evMax ≤ db.events.countP (fun r => r.ty == .binary) ∨ db.evMax ≤ db.events.countP (fun r => r.ty == .analog)) :=
+    db.isAnyFull = true ↔
+      ∃ t, db.evCfg.get t ≠ 0 ∧ db.evCfg.get t ≤ db.events.countP (fun r => r.ty == t) :=
   @Dnp3.Props.Db.any_full_iff db h
 
 /-- an overflow is reported, raises the overflow flag, and discards the OLDEST record of the type -/
@@ -402,6 +414,12 @@ theorem overflow_reported_discards_oldest (db : Db) (idx cls : Nat) (t : PtType)
       ∀ r ∈ db.events, r.ty = t → r ≠ d → d.id < r.id :=
   @Dnp3.Props.Db.overflow_reported_discards_oldest db idx cls t m dv c dId ho h
 
+/-- no type ever holds more events than its configured maximum, and the shared event list never more than
+    the sum of the maxima — the capacity the library gives its `VecList` (so that `VecList::add` cannot
+    fail, which `EventBuffer::insert` does not check) -/
+theorem type_capacity (ev : TyVec Nat) (cz : TyVec Bool) (sel : Option Nat) (ops : List DbOpX) (t : PtType) :
+    (runX (Db.newCfg ev cz sel) ops).events.countP (fun r => r.ty == t) ≤ ev.get t :=
+  @Dnp3.Props.Db.type_capacity ev cz sel ops t
 
 end Db
 
